@@ -46,10 +46,13 @@ type scenario struct {
 	// Graceful: Gadgets outlive their delete without any finalizer (like a Pod in graceful
 	// termination) until the kubelet is done with them
 	Graceful bool `json:"graceful"`
+	// Collide: a foreign Widget b exists before the rollout, which therefore stops in phase p2 with a
+	// collision and never gets to report what it controls; teardown starts from that state
+	Collide bool `json:"collide"`
 }
 
 func (sc scenario) name() string {
-	return fmt.Sprintf("B1 phases=%d delegated=%03b archive=%v holds=%v restarts=%d takeover=%v conflicts=%d rearchive=%v admissionFaults=%d foreground=%v sliced=%v graceful=%v", sc.N, sc.Mask, sc.Archive, sc.Holds, sc.Restarts, sc.TakeOver, sc.Conflicts, sc.Rearchive, sc.AdmissionFaults, sc.Foreground, sc.Sliced, sc.Graceful)
+	return fmt.Sprintf("B1 phases=%d delegated=%03b archive=%v holds=%v restarts=%d takeover=%v conflicts=%d rearchive=%v admissionFaults=%d foreground=%v sliced=%v graceful=%v collide=%v", sc.N, sc.Mask, sc.Archive, sc.Holds, sc.Restarts, sc.TakeOver, sc.Conflicts, sc.Rearchive, sc.AdmissionFaults, sc.Foreground, sc.Sliced, sc.Graceful, sc.Collide)
 }
 
 func system(sc scenario) *world.System {
@@ -67,6 +70,9 @@ func system(sc scenario) *world.System {
 			if sc.Graceful {
 				w.S.Graceful = map[schema.GroupKind]bool{{Group: world.TestGroup, Kind: "Gadget"}: true}
 			}
+			if sc.Collide {
+				w.MustCreate(world.Obj("Widget", world.NS, "b", map[string]any{"x": int64(7)}))
+			}
 			ps := osw.PhaseSpecs(cfg, 1)
 			if sc.Sliced {
 				for i := range ps {
@@ -79,6 +85,11 @@ func system(sc scenario) *world.System {
 			w.MustCreate(world.NewObjectSet("x", nil, nil))
 			if !osw.Settle(w, 40, true) {
 				panic("c04: rollout did not settle")
+			}
+			if sc.Collide {
+				if o := w.S.Objs[world.KeyOf("Widget", world.NS, "a")]; o == nil {
+					panic("c04: collide scenario did not roll out phase p1")
+				}
 			}
 			for _, p := range cfg {
 				for _, o := range p.Objects {
@@ -401,10 +412,12 @@ func scenarios(quick bool) []scenario {
 			out = append(out, scenario{N: 3, Mask: m, Archive: arch, Holds: []string{"c", "b"}, Restarts: 1, TakeOver: true, Conflicts: 1})
 		}
 		if arch {
+			out = append(out, scenario{N: 2, Mask: 0, Archive: true, Collide: true, Holds: []string{"a"}}, scenario{N: 2, Mask: 0b01, Archive: true, Collide: true})
 			out = append(out, scenario{N: 2, Mask: 0, Archive: true, Graceful: true, Conflicts: 1}, scenario{N: 3, Mask: 0b010, Archive: true, Graceful: true})
 			out = append(out, scenario{N: 2, Mask: 0, Archive: true, Holds: []string{"b"}, Sliced: true, Restarts: 1}, scenario{N: 2, Mask: 0b01, Archive: true, Holds: []string{"g"}, Sliced: true})
 			out = append(out, scenario{N: 2, Mask: 0, Archive: true, Holds: []string{"a"}, Rearchive: true})
 		} else {
+			out = append(out, scenario{N: 2, Mask: 0, Collide: true, Holds: []string{"a"}}, scenario{N: 3, Mask: 0, Collide: true, Restarts: 1})
 			out = append(out, scenario{N: 2, Mask: 0, Graceful: true, Restarts: 1}, scenario{N: 2, Mask: 0b10, Holds: []string{"b"}, Graceful: true})
 			out = append(out, scenario{N: 2, Mask: 0, Holds: []string{"b"}, Sliced: true, Restarts: 1}, scenario{N: 2, Mask: 0b10, Holds: []string{"a"}, Sliced: true})
 			out = append(out, scenario{N: 2, Mask: 0, Holds: []string{"b"}, Foreground: true, Restarts: 1}, scenario{N: 2, Mask: 0b10, Holds: []string{"a", "g"}, Foreground: true})
@@ -430,7 +443,7 @@ func scenarios(quick bool) []scenario {
 
 func run(o checks.Opts) *report.Report {
 	rep := report.New("C04", "bfs")
-	rep.Rule = "explicit-state BFS to closure from the fully rolled-out state (phases inline, or every phase entirely in an ObjectSlice): user deletes (background, or foreground propagation with the garbage collector deleting dependents itself) or archives the ObjectSet, then reconcile(ObjectSet / each ObjectSetPhase), finalizer holder releasing foreign finalizers, (some systems) Gadgets that outlive their delete without any finalizer until the kubelet is done with them, garbage collector, third party making another ObjectSet the controller of b, (budgeted) an operator crash before request i of a pass for every i, and (budgeted) another actor's write to the target landing just before write i of a pass for every i (delete precondition / update conflict); (budgeted) admission for one managed object starting to answer every write and dry run with a reason-less 500 and healing again, (one system: all passes in one long-lived operator process, the archived ObjectSet set back to Active and archived again); monitors on every delete / finalizer removal / Archived=True write and an invariant on every state"
+	rep.Rule = "explicit-state BFS to closure from the fully rolled-out state, or from a rollout that a collision stopped in its second phase (phases inline, or every phase entirely in an ObjectSlice): user deletes (background, or foreground propagation with the garbage collector deleting dependents itself) or archives the ObjectSet, then reconcile(ObjectSet / each ObjectSetPhase), finalizer holder releasing foreign finalizers, (some systems) Gadgets that outlive their delete without any finalizer until the kubelet is done with them, garbage collector, third party making another ObjectSet the controller of b, (budgeted) an operator crash before request i of a pass for every i, and (budgeted) another actor's write to the target landing just before write i of a pass for every i (delete precondition / update conflict); (budgeted) admission for one managed object starting to answer every write and dry run with a reason-less 500 and healing again, (one system: all passes in one long-lived operator process, the archived ObjectSet set back to Active and archived again); monitors on every delete / finalizer removal / Archived=True write and an invariant on every state"
 	scs := scenarios(o.Quick())
 	rep.Bounds["systems"] = len(scs)
 	for i, sc := range scs {
